@@ -50,6 +50,14 @@ func main() {
 		func(t *nbtns.NetBIOSNameServer) { t.CleanExpiredNames() },
 		q("A"), q("A"),
 		func(t *nbtns.NetBIOSNameServer) { t.RegisterName("B", nbtns.Unique, a, -time.Hour) },
+		// the same kind of operation twice at once (two writers under what might only be a read lock)
+		func(t *nbtns.NetBIOSNameServer) { t.RefreshName("A", a) },
+		func(t *nbtns.NetBIOSNameServer) { t.RefreshName("A", b) },
+		func(t *nbtns.NetBIOSNameServer) { t.MarkNameConflict("A") },
+		func(t *nbtns.NetBIOSNameServer) { t.ReleaseName("A", c3) },
+		func(t *nbtns.NetBIOSNameServer) { t.CleanExpiredNames() },
+		func(t *nbtns.NetBIOSNameServer) { t.RegisterName("A", nbtns.Group, a, time.Hour) },
+		q("B"),
 	}
 	runs := 0
 	for it := 0; it < iters; it++ {
